@@ -368,8 +368,9 @@ func (s *srvConn) serve(cfg *negCfg, r *negRec) {
 				s.send(fmt.Sprintf("<iq type='result' id='%s'><bind xmlns='%s'><jid>%s</jid></bind></iq>", id, nsBind, jid))
 				r.BindOK = true
 				r.phase = "bound"
-				if !(cfg.session == "mandatory") && !(cfg.sm) {
-					// nothing further is required from the server's side; whether the client goes on is its business
+				if s.settled() {
+					s.enterEstablished(cfg, r)
+					return
 				}
 				continue
 			case "result-no-bind":
@@ -400,6 +401,10 @@ func (s *srvConn) serve(cfg *negCfg, r *negRec) {
 			case "result":
 				s.send(fmt.Sprintf("<iq type='result' id='%s'/>", id))
 				r.SessionOK = true
+				if s.settled() {
+					s.enterEstablished(cfg, r)
+					return
+				}
 				continue
 			case "error":
 				s.send(fmt.Sprintf("<iq type='error' id='%s'><error type='wait'><internal-server-error xmlns='urn:ietf:params:xml:ns:xmpp-stanzas'/></error></iq>", id))
@@ -444,6 +449,10 @@ func (s *srvConn) serve(cfg *negCfg, r *negRec) {
 			}
 			if ok {
 				r.EnableOK = true
+				if s.settled() {
+					s.enterEstablished(cfg, r)
+					return
+				}
 				continue
 			}
 			s.drainAfterFailure(r)
@@ -462,6 +471,26 @@ func (s *srvConn) serve(cfg *negCfg, r *negRec) {
 			}
 			return
 		}
+	}
+}
+
+// settled reports whether the client has gone quiet after a successful answer: the
+// whole system is idle and nothing more was written, i.e. the client regards the
+// negotiation as complete (plain connections only).
+func (s *srvConn) settled() bool {
+	if s.inTLS {
+		return false
+	}
+	vrt.WaitIdle()
+	return len(s.sp.buf) == 0 && s.raw.Buffered() == 0 && !vrt.Killed()
+}
+
+func (s *srvConn) enterEstablished(cfg *negCfg, r *negRec) {
+	r.Established = true
+	if cfg.established != nil {
+		cfg.established(s, r)
+	} else {
+		s.idleSession(r)
 	}
 }
 
